@@ -66,7 +66,7 @@ var _ hash.Hash
 //@ ensures [C07+C15.fsr-lin] result == nil ==> r.Linearisation == Linearisation(data[18]%128)
 //@ ensures [C07+C15+C20.fsr-m] result == nil ==> r.M == specSigned(uint16(data[20]/64)*256+uint16(data[19]), 10) && r.Tolerance == data[20]%64
 //@ ensures [C07+C15+C20.fsr-b] result == nil ==> r.B == specSigned(uint16(data[22]/64)*256+uint16(data[21]), 10)
-//@ ensures [C07.fsr-accuracy] result == nil ==> r.Accuracy == specSigned(uint16(data[23]/16)*64+uint16(data[22]%64), 10) &&
+//@ ensures [C07+C20.fsr-accuracy] result == nil ==> r.Accuracy == specSigned(uint16(data[23]/16)*64+uint16(data[22]%64), 10) &&
 //@    r.AccuracyExp == data[23]/4%4 && r.Direction == SensorDirection(data[23]%4)
 //@ ensures [C07+C15+C20.fsr-exp] result == nil ==> int16(r.RExp) == specSigned(uint16(data[24]/16), 4) && int16(r.BExp) == specSigned(uint16(data[24]%16), 4)
 //@ ensures [C07.fsr-flags] result == nil ==> r.NominalReadingSpecified == bit(data[25], 0) && r.NormalMaxSpecified == bit(data[25], 1) && r.NormalMinSpecified == bit(data[25], 2)
@@ -223,10 +223,10 @@ var _ hash.Hash
 //@ props C05
 
 //@ func (*Message).DecodeFromBytes
-//@ props C05 C17 C07 C11 C08
+//@ props C05 C17 C07 C11 C08 C20
 //@ ensures [C07.msg-short] len(data) < 7 ==> result != nil
-//@ ensures [C07.msg-checksum1] len(data) >= 7 && data[2] != -bsum8(data, 0, 2) ==> result != nil
-//@ ensures [C07.msg-checksum2] len(data) >= 7 && data[len(data)-1] != -bsum8(data, 3, len(data)-1) ==> result != nil
+//@ ensures [C07+C20.msg-checksum1] len(data) >= 7 && data[2] != -bsum8(data, 0, 2) ==> result != nil
+//@ ensures [C07+C20.msg-checksum2] len(data) >= 7 && data[len(data)-1] != -bsum8(data, 3, len(data)-1) ==> result != nil
 //@ ensures [C07.msg-short-response] len(data) == 7 && data[1]/4%2 == 1 ==> result != nil
 //@ ensures [C07+C11.msg-addr] result == nil ==> m.RemoteAddress == Address(data[0]) && m.Function == NetworkFunction(data[1]/4) && m.RemoteLUN == LUN(data[1]%4) &&
 //@    m.LocalAddress == Address(data[3]) && m.Sequence == data[4]/4 && m.LocalLUN == LUN(data[4]%4) && m.Command == CommandNumber(data[5])
